@@ -61,7 +61,14 @@ impl CopyToFileExecutor {
         while let Some(chunk) = recver.blocking_recv() {
             for i in 0..chunk.cardinality() {
                 // TODO(wrj): avoid dynamic memory allocation (String)
-                let row = chunk.arrays().iter().map(|a| a.get_to_string(i));
+                // NULL is written as an empty field, which is what COPY FROM reads as NULL
+                let row = chunk.arrays().iter().map(|a| {
+                    if a.get(i).is_null() {
+                        String::new()
+                    } else {
+                        a.get_to_string(i)
+                    }
+                });
                 writer.write_record(row)?;
             }
             writer.flush()?;
